@@ -153,7 +153,11 @@ impl<'t, 'i> BlockParser<'t, 'i> {
                 }
                 T![escaped] => {
                     t.append_str(&self.input[start..end], start);
-                    debug_assert_eq!(token.len(), 2, "unexpected escaped token length");
+                    // "\" + any char (1..=4 bytes), or a lone "\" at the end of the input
+                    debug_assert!(
+                        (1..=5).contains(&token.len()),
+                        "unexpected escaped token length"
+                    );
                     start = token.span.start() + 1; // skip "\"
                     end = token.span.end()
                 }
